@@ -120,16 +120,14 @@ impl Search {
         self.start();
 
         self.limits.time_management_timer = match self.board.current_turn {
-            Color::White => {
-                self.limits.white_time.unwrap_or(0) / 20
-                    + self.limits.white_increment.unwrap_or(0) / 2
-            }
-            .into(),
-            Color::Black => {
-                self.limits.black_time.unwrap_or(0) / 20
-                    + self.limits.black_increment.unwrap_or(0) / 2
-            }
-            .into(),
+            Color::White => (self.limits.white_time.unwrap_or(0) / 20
+                + self.limits.white_increment.unwrap_or(0) / 2)
+                .min(self.limits.white_time.unwrap_or(Millisecond::MAX))
+                .into(),
+            Color::Black => (self.limits.black_time.unwrap_or(0) / 20
+                + self.limits.black_increment.unwrap_or(0) / 2)
+                .min(self.limits.black_time.unwrap_or(Millisecond::MAX))
+                .into(),
         };
 
         self.iter_deep(evaluator, max_depth);
